@@ -653,8 +653,31 @@ func (x *c18) checkRooted(f *types.Func) {
 				o.Bad("%s[1:] is returned without a test that %s starts with a slash: the first byte of a relative name would be dropped", nameParam.Name(), nameParam.Name())
 			}
 		case *ast.Ident:
-			o := r.Ob("R-3", key+"#return-relative", ret.Pos())
 			v := cgxObj(info, t)
+			// the absolute branch written with strings.CutPrefix: `if abs, ok := strings.CutPrefix(name, "/"); ok { return abs }`
+			if v != nil {
+				if as := cgxAssignsTo(info, fi.Decl.Body, v); len(as) == 1 && as[0].Idx == 0 {
+					if st, isAs := as[0].Node.(*ast.AssignStmt); isAs && len(st.Lhs) == 2 && len(st.Rhs) == 1 {
+						if call, isCall := ast.Unparen(st.Rhs[0]).(*ast.CallExpr); isCall && len(call.Args) == 2 && isPkgFunc(callee(info, call), "strings", "", "CutPrefix") {
+							o := r.Ob("R-3", key+"#return-absolute", ret.Pos())
+							pfx, isStr := stringValue(info, call.Args[1])
+							okObj := cgxObj(info, st.Lhs[1])
+							switch {
+							case cgxObj(info, call.Args[0]) != types.Object(nameParam) || !isStr || pfx != "/":
+								o.Bad("the absolute branch returns %s, cut from %s with prefix %q, not the name parameter without its leading slash", v.Name(), exprStr(call.Args[0]), pfx)
+							case len(cgxAssignsTo(info, fi.Decl.Body, nameParam)) > 0:
+								o.Unknown("the name parameter is reassigned")
+							case okObj != nil && c.GuardedBy(ret, func(l Lit) bool { return l.Tag == nil && l.Truth && cgxObj(info, l.Expr) == okObj }):
+								o.OK("returns %s cut of its leading slash only when strings.CutPrefix found one: exactly the leading slash is stripped", nameParam.Name())
+							default:
+								o.Bad("the result of strings.CutPrefix(%s, \"/\") is returned without testing that the prefix was found", nameParam.Name())
+							}
+							continue
+						}
+					}
+				}
+			}
+			o := r.Ob("R-3", key+"#return-relative", ret.Pos())
 			if v == nil {
 				o.Unknown("returned identifier not resolved")
 				continue
